@@ -50,3 +50,6 @@ def define(M):
     M("C10", "sub_space_default_not_kept_among_needed_sources", "Lib/ufo2ft/_compilers/baseCompiler.py",
       "                if subDocDefault is not None:\n                    sourcesToCompile.add(subDocDefault.name)",
       "                if subDocDefault is not None:\n                    pass")
+    # C09: regression mutant of the repaired defect (flatten filter, sparse masters)
+    M("C09", "flatten_ifilter_does_not_define_composite_at_sparse_locations", "Lib/ufo2ft/filters/flattenComponents.py",
+      "        self.ensureCompositeDefinedAtComponentLocations(glyphName)\n", "")
